@@ -11,7 +11,7 @@ META = {
                    "(cwt::ClaimsSet::to_cbor_value has no duplicate check, see known_findings.json).",
     "decides": "R-1 decode: in the header, key and claims-set decoders a set created once before the loop is consulted with the "
                "NORMALISED label of the current entry (contains -> Err(DuplicateMapKey), then insert), and that gate dominates every "
-               "write to the result inside the loop - at every nesting level because nested headers use the same function; "
+               "write to the result inside the loop and every continuation to the next entry - at every nesting level because nested headers use the same function; "
                "R-2 encode: every (label, value) pushed into an output map is covered by one duplicate set: pushes in the extras "
                "loop are dominated by contains/insert on that extra's label, and every typed entry inserts its own label constant "
                "into the same set under the same guard as its push.",
@@ -52,6 +52,14 @@ def check_decoder(ctx, key, rule="R-1"):
     ctx.ob(rule, "check-before-use:%s" % key, not late and n > 0,
            "the duplicate check dominates all %d writes to the result in the loop body" % n, where=f.span,
            detail={"writes_not_dominated": late})
+    header, body = md.loop
+    latches = [p for p in f.cfg.pred[header] if p in body]
+    from lib.guards import reach_tracking_failures
+    skipping = sorted(set(latches) & set().union(*[reach_tracking_failures(f, header, {g}) for g in gates])) if gates else latches
+    ctx.ob(rule, "no-entry-skips-the-check:%s" % key, bool(latches) and not skipping,
+           "every iteration of the entry loop that goes on to the next entry has passed the duplicate check (no entry is skipped "
+           "on account of its value or label before its label was looked up and recorded)", where=f.span,
+           detail={"continuing_blocks_not_dominated": [f.where(p) for p in skipping]})
     return md
 
 
